@@ -182,3 +182,32 @@ fn c14_bulk_get_is_elementwise_batch_4() {
     assert!(r[3] == m2.get(&k3[..]).unwrap());
     assert!(same(&m, &m2));
 }
+
+/// C01 / C14 — BOUNDED: the generic front-end methods of `DbXxx` (get / put / delete / includes_key / is_empty and the *_string
+/// conveniences) on the array-backed ideal map: each is its `*_kt` counterpart applied to the converted key. One-byte keys and values.
+#[kani::proof]
+#[kani::unwind(6)]
+fn c01_front_end_calls_are_their_kt_counterparts() {
+    let mut m = any_tiny2();
+    let k: [u8; 1] = kani::any(); let v: [u8; 1] = kani::any(); let k2: [u8; 1] = kani::any();
+    let mut m2 = m;
+    // get / includes_key / is_empty on the initial state
+    assert!(m.get(&k[..]).unwrap() == m2.get_kt(&DbBytes::from(&k[..])).unwrap());
+    assert!(m.includes_key(&k[..]).unwrap() == m2.includes_key_kt(&DbBytes::from(&k[..])).unwrap());
+    assert!(m.is_empty().unwrap() == (m2.n == 0));
+    // put
+    m.put(&k[..], &v).unwrap();
+    m2.put_kt(&DbBytes::from(&k[..]), &v).unwrap();
+    assert!(same(&m, &m2));
+    assert!(m.get(&k[..]).unwrap() == Some(vec![v[0]]) || m2.n == 3);
+    assert!(m.get(&k2[..]).unwrap() == m2.get_kt(&DbBytes::from(&k2[..])).unwrap());
+    // delete
+    let r = m.delete(&k2[..]).unwrap();
+    let e = m2.del_kt(&DbBytes::from(&k2[..])).unwrap();
+    assert!(r == e);
+    assert!(same(&m, &m2));
+    assert!(m.is_empty().unwrap() == (m2.n == 0));
+}
+
+// (a harness for the *_string conveniences was tried: from_utf8_lossy under CBMC exceeds the 10 GB limit; the `bulk` / `values` /
+//  `pertype` scenarios stand in for them)
